@@ -40,3 +40,8 @@ check("C12", "fault_enumeration", "exhaustive crash-point enumeration on runs ch
       "Through Aspire.sample_posterior(checkpoint_path=file) a fault is injected at every call index of the user's likelihood/prior for every cadence (1,2,3,5) x run length (1-6 iterations, fixed and adaptive, with n_final_samples) x sampler; after each fault the file must contain the configuration, the proposal and exactly the bytes of the most recent payload, written at exactly the iterations the cadence dictates plus one forced final write; payload-size sequences (every permutation of three runs with 4/8/16 particles into one file, all 27 size sequences through dump_state) catch truncated and stale-suffixed blobs; the file left by each fault is fed to Aspire.resume_from_file (real zuko flow), which must be primed with that payload.",
       "Interruption = Python exception at a user-callable boundary; checkpoint writes observed by wrapping Sampler.default_checkpoint_callback from the harness; HDF5 internal atomicity not modelled.",
       "DESIGN.md 4/C12")
+
+check("C02", "exploration", "small-scope exhaustive enumeration of log-density vectors (all multisets, permutations, shifts, namespaces, dtypes) against extended-precision definitions; all uniform-draw combinations for rejection sampling",
+      "Every multiset of N in {2,3,4} log-weights over a 10-value alphabet (ties, -inf, magnitudes +-1e5 and 700/-745 outside exp()'s range), every distinct permutation, three ways of splitting the weight over likelihood/prior/proposal, constant shifts, three namespaces and two float widths is passed to the real Samples class; log_w, log_evidence, ESS (range, efficiency*N), scaled weights, the relative evidence error (finite and accurate) and the utils helpers are compared with mpmath definitions with rounding-aware tolerances; permutation invariance and the shift law are checked pairwise; rejection_sample is run for every combination of per-row uniforms straddling the acceptance boundary.",
+      "Finite alphabet; jax/torch reduced in quick; linear-space evidence/weights may overflow legitimately.",
+      "DESIGN.md 4/C02", engine="explorer")
